@@ -201,9 +201,13 @@ Definition act_Method (cx : ctx) (p0 annotations fp1 owp1 oneway owp2 rt sp1 n s
                 match parse_u32 digits with
                 | POk x => fin (Some x) []
                 | PErr msg =>
-                    match mk_range cx ip (match vp2 with VLoc e => e | _ => 0 end) with
-                    | Some r => fin None [Diag DError r None [] (lit "Invalid method transact code: " ++ lit msg)]
-                    | None => panic
+                    match vp2 with
+                    | VLoc e2 =>
+                        match mk_range cx ip e2 with
+                        | Some r => fin None [Diag DError r None [] (lit "Invalid method transact code: " ++ lit msg)]
+                        | None => panic
+                        end
+                    | _ => bad       (* vp2 is a usize in the Rust code *)
                     end
                 end
             | _ => bad
